@@ -410,7 +410,10 @@ class Schema(dict, metaclass=LogicalMeta):
             raise exc.DeleteError(
                 f"{self.__name__}: Attempt to popitem in immutable schema"
             )
-        return super().popitem()
+        if not len(self):
+            raise KeyError(f"{self.__name__}: popitem(): schema is empty")
+        key = next(reversed(self))
+        return key, self.pop(key)
 
     def pop(self, key: str, default=unprovided):
         if self.__options__.immutable:
